@@ -33,14 +33,22 @@ func (vC04PM) APIForwardDestGet(string, uuid.UUID) (*defs.APIForwardDest, error)
 func TestVerifC04(t *testing.T) {
 	gin.SetMode(gin.ReleaseMode)
 	mgr := vC04Manager()
-	addr := vC04FreeAddr()
-	m := &Metrics{
-		Address: addr, TrustedProxies: vC04TrustedProxies(),
-		ReadTimeout: conf.Duration(20 * time.Second), WriteTimeout: conf.Duration(20 * time.Second),
-		AuthManager: mgr, Parent: test.NilLogger,
+	var addr string
+	var m *Metrics
+	var ierr error
+	for try := 0; try < 4; try++ { // the scratch port may be taken between probing and listening
+		addr = vC04FreeAddr()
+		m = &Metrics{
+			Address: addr, TrustedProxies: vC04TrustedProxies(),
+			ReadTimeout: conf.Duration(20 * time.Second), WriteTimeout: conf.Duration(20 * time.Second),
+			AuthManager: mgr, Parent: test.NilLogger,
+		}
+		if ierr = m.Initialize(); ierr == nil {
+			break
+		}
 	}
-	if err := m.Initialize(); err != nil {
-		t.Fatal(err)
+	if ierr != nil {
+		t.Fatal(ierr)
 	}
 	defer m.Close()
 	m.SetPathManager(&vC04PM{})
